@@ -220,6 +220,7 @@ def run(tier):
     coverage = {"states": 0, "transitions": 0, "systems": {}}
     cases = nontrivial = judged = steps = 0
     samples = []
+    kinds = {}
     for s in SYSTEMS:
         out = res[s]
         counts, by_from, smp = _report(rep, s, out)
@@ -234,6 +235,8 @@ def run(tier):
         steps += out["random"]["steps"]
         for x in out["replay"].values():
             samples.extend(x.pop("samples", [])[:1])
+            for k, n in x.get("outcome_kinds", {}).items():
+                kinds[k] = kinds.get(k, 0) + n
         samples.extend(smp[:1])
         coverage["systems"][s] = {"platform": {k: out["plat"][k] for k in ("sup", "priv", "inf", "times", "had_cap_sys_resource")},
                                   "enumeration": out["gen"], "replay": out["replay"], "random": out["random"],
@@ -250,6 +253,7 @@ def run(tier):
                 "through the system call",
         "exhaustive": True,
         "bounds": {"level": cfgs["level"], "random": cfgs["random"]},
+        "outcome_kinds_exercised": kinds,
         "known_finding_hits": {fid: n for fid, (_, n) in rep.known_hits.items()},
         "not_covered": [
             "a privileged process raising hard limits (this sandbox has no CAP_SYS_RESOURCE; the harness gives it up "
